@@ -74,16 +74,12 @@ theorem key_roundtrip (k : Key) : k.toJ.toKey? = some k := by
 
 /-- a FileInfo as typhon creates it: two valid datetimes, attributes not `None` -/
 def GoodInfo (i : Info) : Prop :=
-  (∃ a, i.t0 = .time a ∧ a.valid = true) ∧ (∃ b, i.t1 = .time b ∧ b.valid = true) ∧
-    i.attr ≠ .null
+  i.t0.valid = true ∧ i.t1.valid = true ∧ i.attr ≠ .null
 
-theorem from_to_json (i : Info) (h : GoodInfo i) :
-    ∃ j, toJsonDict i = some j ∧ fromJsonDict j = some i := by
-  obtain ⟨p, t0, t1, attr⟩ := i
-  obtain ⟨⟨a, ha, hav⟩, ⟨b, hb, hbv⟩, hattr⟩ := h
-  simp only at ha hb hattr
-  subst ha hb
-  refine ⟨_, rfl, ?_⟩
+theorem from_to_json (i : Info) (h : GoodInfo i) : fromJsonDict (toJsonDict i) = some i := by
+  obtain ⟨p, a, b, attr⟩ := i
+  obtain ⟨hav, hbv, hattr⟩ := h
+  simp only at hav hbv hattr
   have e1 : jget [("path", p.toJ), ("times", J.arr [J.str (String.ofList (fmtTime a)), J.str (String.ofList (fmtTime b))]),
       ("attr", attr)] "path" = some p.toJ := by
     simp [jget]
@@ -93,8 +89,8 @@ theorem from_to_json (i : Info) (h : GoodInfo i) :
   have e3 : jget [("path", p.toJ), ("times", J.arr [J.str (String.ofList (fmtTime a)), J.str (String.ofList (fmtTime b))]),
       ("attr", attr)] "attr" = some attr := by
     simp [jget]
-  simp only [fromJsonDict, e1, e2, e3, key_roundtrip, timesOf, timeSlot, String.toList_ofList,
-    parse_fmt a hav, parse_fmt b hbv, Option.map_some]
+  simp only [toJsonDict, fromJsonDict, e1, e2, e3, key_roundtrip, timesOf, timeSlot, String.toList_ofList,
+    parse_fmt a hav, parse_fmt b hbv]
 
 end Cache
 
@@ -176,21 +172,17 @@ def WFCache (c : CacheMap) : Prop :=
   (c.map Prod.fst).Nodup ∧ ∀ kv ∈ c, kv.1 = kv.2.path ∧ GoodInfo kv.2
 
 theorem cacheDoc_roundtrip (c : CacheMap) (h : ∀ kv ∈ c, GoodInfo kv.2) :
-    ∃ js, c.mapM (fun kv => toJsonDict kv.2) = some js ∧ js.mapM fromJsonDict = some (c.map Prod.snd) := by
+    (c.map (fun kv => toJsonDict kv.2)).mapM fromJsonDict = some (c.map Prod.snd) := by
   induction c with
-  | nil => exact ⟨[], rfl, rfl⟩
+  | nil => rfl
   | cons kv r ih =>
-    obtain ⟨js, h1, h2⟩ := ih (fun kv' h' => h kv' (List.mem_cons_of_mem _ h'))
-    obtain ⟨j, hj1, hj2⟩ := from_to_json kv.2 (h kv (by simp))
-    refine ⟨j :: js, ?_, ?_⟩
-    · simp [List.mapM_cons, hj1, h1]
-    · simp [List.mapM_cons, hj2, h2]
+    have h2 := ih (fun kv' h' => h kv' (List.mem_cons_of_mem _ h'))
+    have hj := from_to_json kv.2 (h kv (by simp))
+    simp [List.mapM_cons, hj, h2]
 
-theorem docToMap_cacheDoc (c : CacheMap) (h : WFCache c) :
-    ∃ j, cacheDoc c = some j ∧ docToMap j = some c := by
-  obtain ⟨js, h1, h2⟩ := cacheDoc_roundtrip c (fun kv hkv => (h.2 kv hkv).2)
-  refine ⟨.arr js, by simp [cacheDoc, h1], ?_⟩
-  simp only [docToMap, entriesOf, h2]
+theorem docToMap_cacheDoc (c : CacheMap) (h : WFCache c) : docToMap (cacheDoc c) = some c := by
+  have h2 := cacheDoc_roundtrip c (fun kv hkv => (h.2 kv hkv).2)
+  simp only [docToMap, cacheDoc, entriesOf, h2]
   rw [foldl_put_fresh]
   · simp only [List.nil_append, List.map_map]
     congr 1
